@@ -68,7 +68,10 @@ def render_lox(case):
 
 
 def go_elem_type(case, t, i):
-    return "Token" if t == 1 else "*N_" + case["rules"][i]["name"]
+    if t == 1:
+        return "Token"
+    # "uniform": every rule returns the same Go type, so that neighbouring stack entries have identical types
+    return "*N_u" if case.get("uniform") else "*N_" + case["rules"][i]["name"]
 
 
 def go_term_type(case, T):
@@ -103,12 +106,12 @@ def render_go(case, pkg):
     ms = methods_of(case)
     o = ["package %s" % pkg, "", 'import "xv/hk"', "", "type Token = hk.Token", "",
          "type Parser struct {", "\tlox", "\trec *hk.Rec", "}", ""]
-    for r in case["rules"]:
-        n = r["name"]
+    rnames = ["u"] if case.get("uniform") else [r["name"] for r in case["rules"]]
+    for n in rnames:
         o += ["type N_%s struct{ hk.Node }" % n, "",
               "func (n *N_%s) Discard() bool { return n.NTok%%2 == 0 }" % n, ""]
     for m in ms:
-        rn = case["rules"][m["rule"]]["name"]
+        rn = "u" if case.get("uniform") else case["rules"][m["rule"]]["name"]
         params = ", ".join("a%d %s" % (i, t) for i, t in enumerate(m["params"]))
         args = "".join(", val(a%d)" % i for i in range(len(m["params"])))
         o += ["func (p *Parser) %s(%s) *N_%s {" % (m["name"], params, rn),
@@ -121,8 +124,7 @@ def render_go(case, pkg):
           "\tcase []Token:", "\t\tvs := make([]hk.Val, 0, len(v))",
           "\t\tfor _, e := range v {", "\t\t\tvs = append(vs, hk.TokVal(e))", "\t\t}",
           "\t\treturn hk.ListVal(vs)"]
-    for r in case["rules"]:
-        n = r["name"]
+    for n in rnames:
         o += ["\tcase *N_%s:" % n, "\t\tif v == nil {", "\t\t\treturn hk.NodeVal(nil)", "\t\t}",
               "\t\treturn hk.NodeVal(&v.Node)",
               "\tcase []*N_%s:" % n, "\t\tvs := make([]hk.Val, 0, len(v))",
